@@ -46,7 +46,7 @@ impl Prop for C13 {
         "case = generated project + observed file + one perturbation of the REST of the project: add a file whose key the observed file does not import; remove a file it does not import; rewrite body / imports / layout of another file keeping package, name and kind; reorder insertion. Oracle (metamorphic): the observed file's tree and diagnostics are equal before and after. Negative controls (counted separately): change the kind of / remove an imported file; when the reference validator's prediction for the observed file differs, the implementation's result must differ too. Projects with a key registered under several kinds are excluded. Non-trivial = the observed file imports a project-defined key and the perturbation touches a file it imports (or is a control); distinct by project text + perturbation.".into()
     }
     fn random_cases(&self, tier: Tier) -> u64 {
-        tier.pick(8_000, 250_000)
+        tier.pick(16_000, 250_000)
     }
     fn max_bytes(&self) -> usize {
         4000
